@@ -4,7 +4,7 @@ import gen_c07
 
 K = dict(KEY_NEW=1, KEY_FREE=2, SUBMIT=3, CQE_MORE=4, CQE_FINAL=5, SET_RESULT=6, TAKE=41, RESET=42, DEALLOC=43,
          REL_DEALLOC=44, GUARD=45, GUARD_LEAK=46, POP=47, POP_EMPTY=48, GUARD_DROP=49, NEW_RING=50,
-         NEW_FALLBACK=51, RELEASED=52, RING_ADD=53, ENTER=27, ENTER_RETURN=28, U_GOT=101, U_DROP=102, U_WRAP=107)
+         NEW_FALLBACK=51, RELEASED=52, RING_ADD=53, ENTER=27, ENTER_RETURN=28, U_AWAIT=108, U_AWAITED=109, U_GOT=101, U_DROP=102, U_WRAP=107)
 E_BUSY, E_UNSUPPORTED, E_INVALID = 1, 2, 3
 
 
@@ -85,6 +85,21 @@ def oracle(case, out):
     released = False
     created = False
     off_thread = None
+    user_live = set()
+    aw = None
+    # slot -> the step that created it (slots are created in program order until the runtime is dropped)
+    creators = []
+    for i in range(case[3]):
+        o, a, b = case[4 + 3 * i: 7 + 3 * i]
+        if o == 10:
+            break
+        if o in (1, 2, 11, 12, 14):
+            creators.append((o, a, b))
+
+    def einval_expected(slot):
+        # a multishot read with a length on a pipe is refused by io_uring (EINVAL) whatever the pool holds
+        return drv == 0 and slot < len(creators) and creators[slot][0] == 2 and creators[slot][1] == 1 \
+            and creators[slot][2] > 0
 
     def avail():
         return set(i for i, st in state.items() if st == "in" and i not in selected)
@@ -98,6 +113,29 @@ def oracle(case, out):
             if a != nbuf:
                 return "pool created with %d buffers, expected %d" % (a, nbuf)
             state = {i: "in" for i in range(a)}
+        elif k == K["U_GOT"]:
+            user_live.add(a)
+        elif k == K["U_DROP"]:
+            user_live.discard(a)
+        elif k == K["U_AWAIT"]:
+            aw = dict(slot=a & 0xffff, kind=a >> 16, pending=b & 1, sole=(b >> 1) & 1, mode=(b >> 2) & 1,
+                      all_held=created and not released and len(user_live) == nbuf, avail=bool(avail()))
+        elif k == K["U_AWAITED"] and aw is not None:
+            outcome, err = a, b & 0xff
+            if aw["all_held"] and (aw["pending"] or drv == 1):
+                if outcome == 0:
+                    return ("event %d: next() on slot %d did not resolve within the watchdog although the consumer "
+                            "holds every buffer%s: the exhaustion error never reached the consumer (swallowed)"
+                            % (idx, aw["slot"], " and data is waiting" if aw["pending"] else ""))
+                if not (outcome == 2 and (err == E_BUSY or (err == E_INVALID and einval_expected(aw["slot"])))):
+                    return ("event %d: next() on slot %d answered outcome %d / error kind %d while the pool is "
+                            "exhausted, expected the ResourceBusy error" % (idx, aw["slot"], outcome, err))
+            elif (aw["mode"] == 1 and aw["pending"] and aw["sole"] and aw["avail"] and aw["kind"] == 2
+                  and not einval_expected(aw["slot"]) and created and not released):
+                if outcome != 1:
+                    return ("event %d: buffers were released and data is waiting, but next() on slot %d delivered "
+                            "nothing (outcome %d, error kind %d)" % (idx, aw["slot"], outcome, err))
+            aw = None
         elif k == K["ENTER_RETURN"]:
             kavail = avail()
         elif k == K["TAKE"]:
@@ -152,7 +190,7 @@ def oracle(case, out):
 class C07(diffcheck.DiffProp):
     pid = "C07"
     manifest = dict(
-        text="Coq proof over a labelled transition system of the managed buffer pool (io_uring buffer ring with the code's u16 tail/index arithmetic and the kernel's head&mask view; fallback free queue; slot table; completions, multishot guards, operations, user handles), for all label sequences and all pool sizes: every buffer id has exactly one owner, live handles never share an id, the kernel's next write target is owned by the ring only, |ring|+|selected|+|in ops|+|handles| = N (= next_power_of_two(size) >= size), a quiet pool has a full ring, the holders can always be drained, exhaustion is answered by ResourceBusy/ENOBUFS exactly when the ring/queue is empty, no step panics, ring index arithmetic never overflows and never overwrites a live entry. Tied to the code by replaying hook-recorded ownership histories of real managed / multishot reads (files, pipes, TCP, UDP, Unix sockets; both drivers) through the extracted LTS, which must predict every buffer id the kernel hands out and every ring index / tail the code reports, plus an oracle on what the API user sees.",
+        text="Coq proof over a labelled transition system of the managed buffer pool (io_uring buffer ring with the code's u16 tail/index arithmetic and the kernel's head&mask view; fallback free queue; slot table; completions, multishot guards, operations, user handles), for all label sequences and all pool sizes: every buffer id has exactly one owner, live handles never share an id, the kernel's next write target is owned by the ring only, |ring|+|selected|+|in ops|+|handles| = N (= next_power_of_two(size) >= size), a quiet pool has a full ring, the holders can always be drained, exhaustion is answered by ResourceBusy/ENOBUFS exactly when the ring/queue is empty, no step panics, ring index arithmetic never overflows and never overwrites a live entry; the runtime-level multishot stream (SubmitMultiStream over SubmitMultiManaged, modelled as a structural recursion over the answers of its inner stream and its factory) returns the ResourceBusy result of its operation / of factory.create() to the consumer after any number of re-submissions and is Pending only when its operation is. Tied to the code by replaying hook-recorded ownership histories of real managed / multishot reads (files, pipes, TCP, UDP, Unix sockets; both drivers) through the extracted LTS, which must predict every buffer id the kernel hands out and every ring index / tail the code reports, plus an oracle on what the API user sees, including consumers that hold every buffer and await next() of a stream under a round budget (the exhaustion error must come out; after a release data must be delivered again).",
         note="Partial: the kernel is an environment label (selects the ring head, fills it and posts the completion atomically w.r.t. the user thread; an io-wq worker still writing while Proactor::drop frees the buffers is outside the model); buffer contents are checked by the harness, not modelled; BufferPool::take(id)/reset(id) called by arbitrary user code and raw Runtime::submit_multi consumers that ignore the buffer id are outside the quantifier; weak memory (the ring tail is published through a non-atomic Cell) not modelled. Trusted: Coq kernel, extraction + driver, cfg(compio_verif) hook commits, harness/rt/src/bin/c07.rs. No axioms.",
         technique="Coq invariant proof over an LTS + acceptance of recorded histories by the extracted LTS")
     prop_file = "prop/C07.v"
@@ -166,7 +204,8 @@ class C07(diffcheck.DiffProp):
     counts = {"quick": 420, "thorough": 6000}
     rule = ("programs of managed reads / multishot streams (read, recv, recv_from; files, pipes, TCP, UDP, Unix "
             "sockets) with harness-controlled arrival, polls, holds, handle drops, future/stream drops, peer close, "
-            "runtime drop with handles outliving it; pool sizes 1..16, buffer lengths 1..64 (192/256 for "
+            "runtime drop with handles outliving it; consumers that hold every buffer and keep awaiting next() of a "
+            "runtime-level multishot stream under a round budget, then release and continue; pool sizes 1..16, buffer lengths 1..64 (192/256 for "
             "recvmsg multishot); io_uring ring and polling-driver fallback pool; every program ends with a probe "
             "of how many buffers can be obtained; non-trivial = a buffer reached the user and went back; "
             "distinct = distinct programs")
